@@ -574,6 +574,30 @@ def large_documents(pm: ProgramModel, ctx: Ctx, mb: ModelBuilder) -> None:
             compare(ctx, "C09-AFM", f"large:{key}", wa, read(pm, "AFMReader", afm_doc(m)), m, f"AFM document ({what})")
 
 
+def polarity_documents(pm: ProgramModel, ctx: Ctx, mb: ModelBuilder) -> None:
+    """Every binary operator of a format over A / !A and B / !B, negated, operands exchanged, as third-party documents (a
+    reader with a shortcut for 'simple' constraints must not lose a negation or a direction)."""
+    from ..codec import ctc_model, polarity_trees
+    roots = lambda m: [c._f["_ast"]._f["root"] for c in m._f["ctcs"]]  # noqa: E731
+    wf = loc(pm.cls("FeatureIDEReader").unit.path, pm.cls("FeatureIDEReader").node)
+    for op in ("AND", "OR", "IMPLIES", "EQUIVALENCE"):
+        m = ctc_model(mb, polarity_trees(mb, op))
+        doc = fide_doc(m, False, False, False, rules=[fide_rule(t) for t in roots(m)])
+        compare(ctx, "C09-FIDE", f"polarities:{op}", wf, read(pm, "FeatureIDEReader", doc.encode("utf8")), m,
+                f"FeatureIDE rules with {op} over plain and negated operands")
+    wg = loc(pm.cls("GlencoeReader").unit.path, pm.cls("GlencoeReader").node)
+    for op in ("AND", "OR", "IMPLIES", "EQUIVALENCE", "EXCLUDES", "XOR"):
+        m = ctc_model(mb, polarity_trees(mb, op))
+        compare(ctx, "C09-GLENCOE", f"polarities:{op}", wg, read(pm, "GlencoeReader", json.dumps(glencoe_doc(m, trees=roots(m)))), m,
+                f"Glencoe terms with {op} over plain and negated operands")
+    wa = loc(pm.cls("AFMReader").unit.path, pm.cls("AFMReader").node)
+    with Console():
+        for op in ("AND", "OR", "IMPLIES", "EQUIVALENCE", "REQUIRES", "EXCLUDES"):
+            m = ctc_model(mb, polarity_trees(mb, op))
+            compare(ctx, "C09-AFM", f"polarities:{op}", wa, read(pm, "AFMReader", afm_doc(m)), m,
+                    f"AFM constraints with {op} over plain and negated operands")
+
+
 def nary_sweep(pm: ProgramModel, ctx: Ctx, mb: ModelBuilder) -> None:
     """n-ary terms with 2..13 operands (both parities, more than a power of two, two digits): every operand is kept."""
     wf = loc(pm.cls("FeatureIDEReader").unit.path, pm.cls("FeatureIDEReader").node)
@@ -726,5 +750,6 @@ def check(pm: ProgramModel, ctx: Ctx) -> None:
     afm(pm, ctx, mb)
     large_documents(pm, ctx, mb)
     nary_sweep(pm, ctx, mb)
+    polarity_documents(pm, ctx, mb)
     histories(pm, ctx, mb)
     ctx.floor("C09", "obligations", len(ctx.obligations), 30)
